@@ -263,6 +263,40 @@ flow main
   send RoundEnd()
 """, [E("Reset"), E("A"), E("B"), E("C"), E("Other")], prefix=())
 
+# parent and child wait for the same event: the parent is advanced first, finishes and thereby ends the child in the same event
+prog("same_event_parent_child", """
+flow child
+  match Bye()
+  send ChildBye()
+  match More() or Other()
+  send ChildMore()
+
+flow parent
+  start child
+  match Bye()
+  send ParentBye()
+
+flow main
+  match Go()
+  start parent
+  match Never()
+""", [E("Go"), E("Bye"), E("More"), E("Other")])
+
+# explicit deactivation of an activated flow that already completed a cycle
+prog("deactivate", """
+flow act
+  match Ping()
+  send Pong()
+
+flow main
+  match Go()
+  activate act
+  match Off()
+  deactivate act
+  match Never()
+""", [E("Go"), E("Ping"), E("Off"), E("Other")],
+     react=[])
+
 # payloads + competing flows in one loop (conflict resolution inside)
 prog("conflict", """
 flow x
